@@ -6,6 +6,7 @@ and optional LZMA compression.
 """
 
 import lzma
+import struct
 from pathlib import Path
 from struct import pack
 from typing import List, Tuple
@@ -91,18 +92,29 @@ class Writer:
         """
         word_format = {8: 'B', 16: 'H', 32: 'L', 64: 'Q'}[self.word_size]
 
-        with open(self.output_file, 'wb') as f:
-            f.write(pack(_header_base_format, FJ_MAGIC, self.word_size, self.version.value, len(self.segments)))
+        # pack everything before touching the output file, so that a value that doesn't fit its field is
+        #  reported as a write-error and never leaves a partial file behind.
+        try:
+            chunks = [pack(_header_base_format, FJ_MAGIC, self.word_size, self.version.value, len(self.segments))]
             if FJMVersion.BaseVersion != self.version:
-                f.write(pack(_header_extension_format, self.flags, self.reserved))
+                chunks.append(pack(_header_extension_format, self.flags, self.reserved))
 
             for segment in self.segments:
-                f.write(pack(_segment_format, *segment))
+                chunks.append(pack(_segment_format, *segment))
 
             fjm_data = pack(f'<{len(self.data)}{word_format}', *self.data)
-            if FJMVersion.CompressedVersion == self.version:
-                fjm_data = self._compress_data(fjm_data)
+        except struct.error as e:
+            raise FlipJumpWriteFjmException(
+                f"Can't write the fjm file: a value doesn't fit its field "
+                f"(a data word must fit in {self.word_size} bits, a segment field in 64 bits): {e}"
+            ) from e
 
+        if FJMVersion.CompressedVersion == self.version:
+            fjm_data = self._compress_data(fjm_data)
+
+        with open(self.output_file, 'wb') as f:
+            for chunk in chunks:
+                f.write(chunk)
             f.write(fjm_data)
 
     def get_segment_addresses_repr(self, word_start_address: int, word_length: int) -> str:
@@ -167,6 +179,11 @@ class Writer:
     def _update_to_relative_jumps(self, segment_start: int, data_start: int, data_length: int) -> None:
         word_mask = (1 << self.word_size) - 1
         for i in range(1, data_length, 2):
+            if not 0 <= self.data[data_start + i] <= word_mask:
+                raise FlipJumpWriteFjmException(
+                    f"data word {self.data[data_start + i]} doesn't fit in {self.word_size} bits "
+                    f"(the jump word of segment-address {segment_start + i})."
+                )
             self.data[data_start + i] = (self.data[data_start + i] - (segment_start + i) * self.word_size) & word_mask
 
     def add_segment(self, segment_start: int, segment_length: int, data_start: int, data_length: int) -> None:
